@@ -78,7 +78,16 @@ func runTranscript(t []string) string {
 			copy(arena, pristine)
 		}
 	}
+	// once a call has returned the caller may reuse its buffers: the bytes just passed are overwritten
+	// (a transcript that kept references instead of copies would hash the later contents)
+	scribble := func(sp span) {
+		for i := sp.a; i < sp.b; i++ {
+			arena[i] = 0x5A
+			pristine[i] = 0x5A
+		}
+	}
 	tr := common.NewTranscript(string(sl(protoSp)))
+	scribble(protoSp)
 	sb.WriteString("c")
 	for _, o := range ops {
 		switch o.kind {
@@ -105,6 +114,8 @@ func runTranscript(t []string) string {
 			sb.WriteString(" " + frHex(&c))
 		}
 		check()
+		scribble(o.l)
+		scribble(o.m)
 	}
 	return sb.String()
 }
@@ -112,9 +123,15 @@ func runTranscript(t []string) string {
 func runFrDec(t []string) string {
 	buf := unhex(t[2])
 	show := func(v string, v2 string) string { return v + " " + hexs(buf) + " " + v2 }
+	// the second decode of each pair goes into a receiver that already holds a value with all limbs
+	// non-zero (decoding overwrites the receiver completely)
+	var used fr.Element
+	used.SetOne()
+	used.Neg(&used)
 	switch t[1] {
 	case "be":
 		var a, b fr.Element
+		b = used
 		a.SetBytes(buf)
 		after := append([]byte(nil), buf...)
 		b.SetBytes(buf)
@@ -122,12 +139,14 @@ func runFrDec(t []string) string {
 		return r
 	case "le":
 		var a, b fr.Element
+		b = used
 		a.SetBytesLE(buf)
 		after := append([]byte(nil), buf...)
 		b.SetBytesLE(buf)
 		return frHex(&a) + " " + hexs(after) + " " + frHex(&b)
 	case "lec":
 		var a, b fr.Element
+		b = used
 		s1, s2 := "ERR", "ERR"
 		if _, err := a.SetBytesLECanonical(buf); err == nil {
 			s1 = frHex(&a)
